@@ -341,4 +341,17 @@ theorem run_length (g : Gates) (dist : Pos → Pos → Rat) (upd : Option (Repor
   | nil => intro st; rfl
   | cons a h ih => intro st; simp [run, ih]
 
+/-- the outputs of a prefix are the prefix of the outputs: later deliveries do not change earlier outputs -/
+theorem run_take (g : Gates) (dist : Pos → Pos → Rat) (upd : Option (Report → Bool)) :
+    ∀ (h : List Report) (st : State) (n : ℕ),
+      run g dist upd st (h.take n) = (run g dist upd st h).take n := by
+  intro h
+  induction h with
+  | nil => intro st n; simp [run]
+  | cons a h ih =>
+    intro st n
+    cases n with
+    | zero => simp [run]
+    | succ n => simp [run, ih]
+
 end Rs1090.Proofs.CprState
